@@ -103,7 +103,11 @@ def exclusion(tier):
             if extra and ignored(extra):
                 b.mkfile(extra, 98)
             b.mkfile("R/d/e/.DS_Store", 97) if b.exists("R/d/e") else None
+        # directory hashes recorded by the nested history before the pattern existed legitimately include entries that are ignored now
+        child_predates_pattern = nested and any(ignored(f) and cm.under(f, "R/d") for f in files)
         for cmd in ("verify", "verify-dh", "diff", "create", "create-sf-folder"):
+            if cmd == "verify-dh" and child_predates_pattern:
+                continue
             if cmd == "verify":
                 r = b.run("verify", root="R")
             elif cmd == "verify-dh":
